@@ -4,6 +4,21 @@ HERE = os.path.dirname(os.path.dirname(os.path.abspath(__file__)))
 props = [json.loads(l) for l in open(os.path.join(HERE, "properties.jsonl"))]
 
 CHECKS = {
+    "C02": dict(
+        text="Coq theorems over the v2 model (Model/V2.v: compile_pattern, format_version, parse_version_info, with part tables regenerated "
+             "from /repo by T1) tied to the code by in-Coq differential correspondence on grammar patterns x version states; round trip "
+             "also searched directly on the implementation.",
+        note="Trusted: Coq kernel+vm_compute, T1 translator, hand models of Python re (subset) and of v2patterns/v2version, harness. "
+             "Known finding: week 53 for WW/0W/UU/0U.",
+        technique="Coq proof over regenerated part tables + model/implementation correspondence evaluated inside Coq",
+        ref="6/C02"),
+    "C14": dict(
+        text="Coq theorems: cal_periodic, monotonicity of every coherent year x sub-part key for all days (one era by vm_compute in the kernel, "
+             "lifted by periodicity), strictness of the nine-field tuple, witnesses for every rejected pairing; calendar model tied to "
+             "v2version.cal_info by range checksums evaluated inside Coq; rendered versions compared with parse_version on the implementation.",
+        note="Trusted: Coq kernel+vm_compute, hand calendar model (Lib/Calendar.v), harness, CPython datetime/strftime.",
+        technique="Coq proof (finite era sweep in the kernel + periodicity lemma) + checksum correspondence",
+        ref="6/C14"),
     "C17": dict(
         text="Theorems in Coq over Model/Lexid.v (lexid.next_id + the BUILD branch of _incr_numeric) for every digit string; "
              "the model is tied to the code by exhaustive correspondence over all ids of 1..4 (thorough 1..5) digits and bump chains.",
